@@ -25,6 +25,9 @@ pub enum Op {
     Xor(usize, usize),
     /// restrict(result[a], var, val)
     Restrict(usize, usize, bool),
+    /// the documented repair step called on the live, streaming store (public API; it must
+    /// not publish anything: no node is new)
+    FixImport,
 }
 
 #[derive(Clone, Debug, Serialize, Deserialize, PartialEq, Eq, Hash)]
@@ -64,6 +67,10 @@ fn apply(bdd: &mut Bdd, res: &[Term], op: &Op, nvars: usize) -> Term {
         Op::Iff(a, b) => bdd.iff(r(a), r(b)),
         Op::Xor(a, b) => bdd.xor(r(a), r(b)),
         Op::Restrict(a, v, val) => bdd.restrict(r(a), Var(*v % nvars), *val),
+        Op::FixImport => {
+            bdd.fix_import();
+            Term::BOT
+        }
     }
 }
 
@@ -79,9 +86,13 @@ fn semantics_tail(bdd: Bdd, res: &[Term], tail: &[usize], nvars: usize) -> (Bdd,
     let ac: Vec<Term> = (0..nvars).map(|i| res[tail.get(i).copied().unwrap_or(0) % res.len()]).collect();
     let mut adf = Adf::from((vc, bdd, ac));
     let g = adf.grounded();
+    // the searches with their own stability check first: afterwards `stable()` finds most reduct
+    // diagrams already built
+    let sa: Vec<Vec<Term>> = adf.stable_count_optimisation_heu_a().collect();
+    let sn: Vec<Vec<Term>> = adf.stable_nogood(adf_bdd::adf::heuristics::Heuristic::Simple).collect();
     let c: Vec<Vec<Term>> = adf.complete().collect();
     let st: Vec<Vec<Term>> = adf.stable().collect();
-    let out = format!("{g:?} {c:?} {st:?}");
+    let out = format!("{g:?} {c:?} {st:?} {sa:?} {sn:?}");
     (adf.bdd, out)
 }
 
@@ -93,7 +104,9 @@ pub fn gen_ops(rng: &mut Rng, nvars: usize, n_ops: usize) -> Vec<Op> {
         let b = rng.below(have) as usize;
         // bias operands towards recent results so that diagrams grow
         let a = if rng.chance(1, 2) && i > 0 { i + 1 - rng.below(i.min(3) as u64) as usize } else { a };
-        let op = if i < nvars.min(3) || rng.chance(1, 6) {
+        let op = if i > 1 && rng.chance(1, 30) {
+            Op::FixImport
+        } else if i < nvars.min(3) || rng.chance(1, 6) {
             Op::Var(rng.below(nvars as u64) as usize)
         } else {
             match rng.below(8) {
@@ -622,7 +635,7 @@ impl Scenario for Mirror {
                     }
                 };
                 match op {
-                    Op::Var(_) => {}
+                    Op::Var(_) | Op::FixImport => {}
                     Op::Not(a) | Op::Restrict(a, _, _) => fix(a),
                     Op::And(a, b) | Op::Or(a, b) | Op::Imp(a, b) | Op::Iff(a, b) | Op::Xor(a, b) => {
                         fix(a);
